@@ -20,8 +20,8 @@ CLAIMS = {
   "C05": ("exploration", TECH + " (flag logic deductive; detection bounded, sampled)",
           "Detection rests on LLL / best-first heuristics: seeded members of each documented family at the documented margins (bounded, sampled). Deductive part: the Check methods flag exactly when the callee reports (CheckContinuedFraction, LowHammingWeight severity rule), search loops try candidates until the first success; Pollardpm1 is proved to be the mechanism the property names (gate gcd(n-1, m) >= bound, base 2^(n-1) mod n, flagged <=> gcd(a^m - 1, n) > 1, factored with that gcd when proper).",
           NOTE, "DESIGN.md 4/C05"),
-  "C10": ("exploration", TECH + " (search space, table index space, index mapping and SOUNDNESS of every returned logarithm deductive; completeness of the baby-step lookups bounded)",
-          "Deductive part (all n, all list lengths, all curves): BatchDL search space (the giant steps j*t together with the baby-step window |delta| < table_size reach every x in [0, n); the table cached on the curve is at least as large as the window), PointTable index space (the stored values i*m + j with j < m == len(sequence_low), i < len(sequence_high) reach every index in [0, n)), BatchDLOfDifferences (cached table covers max_diff whenever the search runs), CheckWeakECPrivateKey / CheckECKeySmallDifference flag key i exactly when search result i is not None (partition by curve preserves the index mapping). Soundness over the logarithm view of <G>: every value BatchDL returns is a discrete log of its own point (stored only after Multiply(G, dl) was compared with the target, both signs), and ExtendedBatchDL's value d * multiplier is a log of the original point because the transformed point is inverse * P and inverse * multiplier == 1 (mod n) - for every curve, list and multiplier list. Group view (bridge clauses on the formula-level functions assumed, see C11): Multiply returns n * P for every integer n, PointSequence entry k is k * base. That the baby-step lookups FIND every small logarithm (table keys are the x-coordinates of the right multiples, BatchAddX values as group elements) is decided by the bounded tier: exhaustive for all x, all list lengths and call histories on small prime-order curves, edge cases on named curves.",
+  "C10": ("exploration", TECH + " (first sentence - BatchDL finds every x < bound - deductive in a group view with assumed bridge clauses; soundness, search space, table, index mapping deductive; the structured-key and small-difference sentences bounded)",
+          "Deductive part (all n, all list lengths, all curves): BatchDL search space (the giant steps j*t together with the baby-step window |delta| < table_size reach every x in [0, n); the table cached on the curve is at least as large as the window), PointTable index space (the stored values i*m + j with j < m == len(sequence_low), i < len(sequence_high) reach every index in [0, n)), BatchDLOfDifferences (cached table covers max_diff whenever the search runs), CheckWeakECPrivateKey / CheckECKeySmallDifference flag key i exactly when search result i is not None (partition by curve preserves the index mapping). Soundness over the logarithm view of <G>: every value BatchDL returns is a discrete log of its own point (stored only after Multiply(G, dl) was compared with the target, both signs), and ExtendedBatchDL's value d * multiplier is a log of the original point because the transformed point is inverse * P and inverse * multiplier == 1 (mod n) - for every curve, list and multiplier list. Group view (bridge clauses on the formula-level functions assumed, see C11): Multiply returns n * P for every integer n, PointSequence entry k is k * base. COMPLETENESS of BatchDL (second, independent contract on the function): for every index i and every x with 0 <= x < n, if points[i] == x * G and the table cached on the curve is a correct baby-step table of its recorded size, then result[i] is not None - the giant step J = (x + ts - 1) // t leaves |x - J t| < ts, BatchAddX(p, list_c)[J] is the x-coordinate of (x - J t) G (None for the identity: None is a dict key of the table), the stored value v satisfies v G == +-(x - J t) G and one of the candidates J t + v, J t - v is verified and stored; the table invariant is re-established. PointTable is proved to build such a table (every v * base, v < n, has its key; every stored value has the right x-coordinate). Bridge clauses (assumed, listed): AddJacobian / DoubleJacobian / JacobianToAffine / BatchJacobianToAffine / Negate / BatchAddX compute the group operation resp. the x-coordinate of the sum on on-curve representatives; group and x-coordinate axioms of the specification theory. The sentences about structured private keys (ExtendedBatchDL finds e * multiplier) and about small differences (BatchDLOfDifferences) are decided for completeness by the bounded tier: exhaustive for all x, all list lengths and call histories on small prime-order curves, edge cases on named curves.",
           NOTE, "DESIGN.md 4/C10"),
   "C11": ("proof", TECH,
           "Formulas, for every prime field (congruence mode: the bodies are executed with `% self.mod` dropped, postconditions are integer polynomial identities over ghost affine coordinates, the chord/tangent slope stated inverse-free): AddJacobian and DoubleJacobian (both the a == -3 shortcut and the general formula) represent the textbook chord / tangent result (X3 == x3*Z3^2, Y3 == y3*Z3^3), affine Add / Double satisfy the textbook law with an explicit modular-inverse witness, Negate, AffineToJacobian, JacobianToAffine. BatchInverse (Montgomery trick) for every modulus and list. Value pass (body unmodified): which branch (chord / tangent / infinity / other operand) Add, AddJacobian, Double, DoubleJacobian take, stated as a comparison of field elements (lemmas mod_mul_r, mod_eq_iff proved on every run), results reduced to [0, p), no ZeroDivisionError under the stated prime-field hypothesis. Batched variants (ring pass, every modulus and list): BatchAddX, BatchAddSubtractX, BatchAdd, BatchAddList (chord law with the slope from the shared inversion), BatchDouble (tangent law), BatchJacobianToAffine, BatchJacobianToX (x = X w^2, y = Y w^3 with w Z == 1) - the inverses come from BatchInverse's proved contract. Scalar multiplication: Multiply is proved to return n * P for EVERY integer n (sign handling, n == 1 shortcut, double-and-add invariant res + n * pj == n0 * P) and PointSequence entry k to be k * base, in a group view whose bridge to the formulas (AddJacobian / DoubleJacobian / JacobianToAffine / Negate compute the group operation on on-curve representatives) is an ASSUMED clause justified by the ring pass plus the textbook fact that the chord/tangent law is a group law. Named-curve parameters: ground obligations. BatchMultiplyG (comb method), MultiplyAffine, non-canonical representatives end to end: bounded, exhaustive over whole small prime-order groups against an independent implementation.",
